@@ -11,14 +11,6 @@ import (
 	"golang.org/x/tools/go/ssa"
 )
 
-// armSettingsAckCounter arms an obligation that fails on today's tree: the
-// pending SETTINGS acknowledgement is a bool, so two SETTINGS frames processed
-// while an asynchronous frame write is in flight are answered by one ACK (see
-// the report; the source carries a TODO at processSettings acknowledging it).
-// Left disarmed until the orchestrator confirms the history with a probe and
-// lists the key in known_findings.txt.
-const armSettingsAckCounter = false
-
 func init() {
 	Register(&Property{
 		ID:    "C15",
@@ -30,11 +22,11 @@ func init() {
 			"handlerDone decrements once and is the serve loop's reaction to the handler's deferred message, the unstarted-handler queue is bounded by 4*advMaxStreams, processHeaders refuses a new stream when curClientStreams+1 > advMaxStreams before creating it, " +
 			"advMaxStreams is fixed at connection setup and is the value advertised in the initial SETTINGS; " +
 			"PING: non-ACK on stream 0 always reaches writeFrame with a writePingAck carrying the received frame whose writer sends ack=true with that frame's data, the ACK branch and the bad-stream branch never write; " +
-			"SETTINGS: every successfully applied non-ACK frame sets needToSendSettingsAck and wakes the scheduler, scheduleFrameWrite turns the flag into a writeSettingsAck frame, ACK frames set nothing; " +
+			"SETTINGS: every successfully applied non-ACK frame adds one to the pending-acknowledgement counter and wakes the scheduler, scheduleFrameWrite turns each pending unit into one writeSettingsAck frame (decrement under counter > 0), ACK frames set nothing; " +
 			"request validation: the real handler is scheduled only when the header block was not truncated and checkValidHTTP2RequestHeaders returned nil, that function rejects every field of the connection-specific table {Connection, Keep-Alive, Proxy-Connection, Transfer-Encoding, Upgrade} and any TE other than trailers, " +
 			"newWriterAndRequest returns a stream error before a request object exists for missing :method/:path, bad :scheme and malformed CONNECT.",
 		NotCovered: "the global ordering 'no HEADERS/DATA after END_STREAM/RST_STREAM' across the asynchronous write goroutine (a fact about histories: only the state writers, the closed-stream filter and the panics guarding it are decided); " +
-			"that one ACK is written per SETTINGS frame when several are processed while a write is in flight (the pending-ack state is a bool; see armSettingsAckCounter); PING handling while in GOAWAY; " +
+			"PING handling while in GOAWAY; " +
 			"field-name/value syntax checks (done by the frame reader, C07); the h2c upgrade request, which starts its handler without the concurrency guard by design.",
 		Run: c15,
 	})
@@ -143,29 +135,21 @@ func c15(c *Ctx) {
 	ps := sc + "processSettings"
 	flag := "http2.serverConn.needToSendSettingsAck"
 	applied := "ForeachSetting($0,closure:processSetting$bound) == nil"
-	c.PassThroughIncl(ps, c.Edge(applied), Stores(flag).StoredIs("true"))
+	// every applied SETTINGS frame adds one pending acknowledgement (a counter, not a flag: two frames
+	// processed while a write is in flight need two ACKs — fixed in /repo by f4dfd6a)
+	c.PassThroughIncl(ps, c.Edge(applied), Stores(flag).StoredIs("($r.needToSendSettingsAck+1)"))
 	c.PassThroughIncl(ps, c.Edge(applied), Calls(sc+"scheduleFrameWrite"))
 	c.NeverAfter(ps, c.Edge("IsAck($0)"), Union(Stores(flag), Calls("(*http2.SettingsFrame).ForeachSetting")), true)
 	c.Guard(ps, Calls("(*http2.SettingsFrame).ForeachSetting"), "!IsAck($0)")
 	c.Writers(flag, ps, sc+"scheduleFrameWrite")
 	sched := sc + "scheduleFrameWrite"
-	c.Guard(sched, Stores(flag), "$r.needToSendSettingsAck")
-	c.PassThroughIncl(sched, c.Edge("$r.needToSendSettingsAck"), Calls(sc+"startFrameWrite"))
+	c.Guard(sched, Stores(flag), "$r.needToSendSettingsAck > 0")
+	c.Has(sched, Stores(flag).StoredIs("($r.needToSendSettingsAck-1)"))
+	c.Count(sched, Stores(flag), 1, 1)
+	c.PassThroughIncl(sched, c.Edge("$r.needToSendSettingsAck > 0"), Calls(sc+"startFrameWrite"))
 	c.Has(sched, Stores("http2.FrameWriteRequest.write").StoredIs("zero(http2.writeSettingsAck)"))
 	c.Has("(http2.writeSettingsAck).writeFrame", Calls("(*http2.Framer).WriteSettingsAck"))
 	c.Callers(ps, sc+"processFrame")
-	if armSettingsAckCounter {
-		fv := c.P.Field(flag)
-		isCounter := false
-		if fv != nil {
-			if b, ok := fv.Type().Underlying().(*types.Basic); ok && b.Info()&types.IsInteger != 0 {
-				isCounter = true
-			}
-		}
-		c.Check(isCounter, "ack-accounting", "pending SETTINGS acknowledgements are counted", fv.Pos(), "",
-			"needToSendSettingsAck is a bool: SETTINGS, SETTINGS processed while an asynchronous frame write is in flight (scheduleFrameWrite returns early) are answered by a single ACK")
-	}
-
 	// ---- request validation -----------------------------------------------------------------
 	realHandlerGuard(c, ph, sc+"scheduleHandler")
 	c.Callers("http2.checkValidHTTP2RequestHeaders", ph, "(*http2.responseWriter).Push")
